@@ -39,25 +39,25 @@ theorem finvStopB_congr {d d' : Disk} (segs0 : List Seg) (hs : d'.md.segs = d.md
   rw [finvRunB_congr (d' := ⟨⟨n' - 1, segs0, st'⟩, fs'⟩) (d := ⟨⟨n' - 1, segs0, st⟩, fs'⟩) rfl rfl rfl]
   rfl
 
-/-! ### `runActs` on a single action -/
+/-! ### `runActs` step by step -/
 
-theorem runActs_nil (d : Disk) (wf : WriteFail) (k : Option Nat) : runActs d wf [] k = (d, none, k) := by
-  cases k <;> rfl
+theorem runActs_nil (d : Disk) (pl : Plan) : runActs d [] pl = (d, none, pl) := by
+  rcases pl with _ | ⟨_ | wf, pl⟩ <;> rfl
 
-theorem runActs_cons_none (d : Disk) (wf : WriteFail) (a : Act) (as : List Act) :
-    runActs d wf (a :: as) none = runActs (applyF d a) wf as none := rfl
+theorem runActs_cons_nil (d : Disk) (a : Act) (as : List Act) :
+    runActs d (a :: as) [] = runActs (applyF d a) as [] := rfl
 
-theorem runActs_cons_succ (d : Disk) (wf : WriteFail) (a : Act) (as : List Act) (n : Nat) :
-    runActs d wf (a :: as) (some (n + 1)) = runActs (applyF d a) wf as (some n) := rfl
+theorem runActs_cons_none (d : Disk) (a : Act) (as : List Act) (pl : Plan) :
+    runActs d (a :: as) (none :: pl) = runActs (applyF d a) as pl := rfl
 
-theorem runActs_commit_zero (d : Disk) (wf : WriteFail) (m : Meta) (as : List Act) :
-    runActs d wf (.commit m :: as) (some 0) = (d, some (.commit m), none) := rfl
+theorem runActs_commit_fail (d : Disk) (wf : WriteFail) (m : Meta) (as : List Act) (pl : Plan) :
+    runActs d (.commit m :: as) (some wf :: pl) = (d, some (.commit m), pl) := rfl
 
-theorem runActs_create_zero (d : Disk) (wf : WriteFail) (id b : Nat) (as : List Act) :
-    runActs d wf (.create id b :: as) (some 0) = (d, some (.create id b), none) := rfl
+theorem runActs_create_fail (d : Disk) (wf : WriteFail) (id b : Nat) (as : List Act) (pl : Plan) :
+    runActs d (.create id b :: as) (some wf :: pl) = (d, some (.create id b), pl) := rfl
 
-theorem runActs_delete_zero (d : Disk) (wf : WriteFail) (id : Nat) (as : List Act) :
-    runActs d wf (.delete id :: as) (some 0) = runActs d wf as none := rfl
+theorem runActs_delete_fail (d : Disk) (wf : WriteFail) (id : Nat) (as : List Act) (pl : Plan) :
+    runActs d (.delete id :: as) (some wf :: pl) = runActs d as pl := rfl
 
 @[simp] theorem applyF_commit (d : Disk) (m : Meta) : applyF d (.commit m) = { d with md := m } := rfl
 @[simp] theorem applyF_delete (d : Disk) (id : Nat) : applyF d (.delete id) = d.apply (.delete id) := rfl
@@ -66,17 +66,17 @@ theorem runActs_delete_zero (d : Disk) (wf : WriteFail) (id : Nat) (as : List Ac
 /-! ### `set` -/
 
 /-- the disk after a `set`: unchanged (the commit failed) or with the new stable store -/
-theorem runOp_set (p : Proc) (key val : Nat) (k : Option Nat) (wf : WriteFail) :
-    ((runOp p (.set key val) k wf).1 = p ∧ (runOp p (.set key val) k wf).2 = false) ∨
-    ((runOp p (.set key val) k wf).1 =
+theorem runOp_set (p : Proc) (key val : Nat) (pl : Plan) :
+    ((runOp p (.set key val) pl).1 = p ∧ (runOp p (.set key val) pl).2 = false) ∨
+    ((runOp p (.set key val) pl).1 =
         { p with disk := { p.disk with md := { p.disk.md with stable := upsert p.disk.md.stable key val } } } ∧
-      (runOp p (.set key val) k wf).2 = true) := by
-  rcases k with _ | _ | n
+      (runOp p (.set key val) pl).2 = true) := by
+  rcases pl with _ | ⟨_ | wf, pl⟩
   · exact Or.inr ⟨rfl, rfl⟩
-  · exact Or.inl ⟨rfl, rfl⟩
   · refine Or.inr ⟨?_, ?_⟩
-    · simp only [runOp, runActs_cons_succ, runActs_nil, applyF_commit]
-    · simp only [runOp, runActs_cons_succ, runActs_nil, applyF_commit, Option.isNone_none]
+    · simp only [runOp, runActs_cons_none, runActs_nil, applyF_commit]
+    · simp only [runOp, runActs_cons_none, runActs_nil, applyF_commit, Option.isNone_none]
+  · exact Or.inl ⟨rfl, rfl⟩
 
 theorem finvB_stable (p : Proc) (st : List (Nat × Nat)) :
     finvB { p with disk := { p.disk with md := { p.disk.md with stable := st } } } = finvB p := by
@@ -90,29 +90,27 @@ theorem view_stable (p : Proc) (st : List (Nat × Nat)) :
   unfold view
   exact absLog_congr rfl rfl
 
-theorem finv_call_set (p : Proc) (hi : FInv p) (key val : Nat) (_hok : OkV (view p) (.set key val)) (k : Option Nat)
-    (wf : WriteFail) : FInv (runOp p (.set key val) k wf).1 := by
-  rcases runOp_set p key val k wf with ⟨h, _⟩ | ⟨h, _⟩
+theorem finv_call_set (p : Proc) (hi : FInv p) (key val : Nat) (_hok : OkV (view p) (.set key val)) (pl : Plan) : FInv (runOp p (.set key val) pl).1 := by
+  rcases runOp_set p key val pl with ⟨h, _⟩ | ⟨h, _⟩
   · rw [h]; exact hi
   · rw [h]; unfold FInv; rw [finvB_stable]; exact hi
 
-theorem call_view_set (p : Proc) (_hi : FInv p) (key val : Nat) (_hok : OkV (view p) (.set key val)) (k : Option Nat)
-    (wf : WriteFail) :
-    view (runOp p (.set key val) k wf).1 =
-      if (runOp p (.set key val) k wf).2 then specApply (view p) (.set key val) else view p := by
-  rcases runOp_set p key val k wf with ⟨h, h2⟩ | ⟨h, h2⟩
+theorem call_view_set (p : Proc) (_hi : FInv p) (key val : Nat) (_hok : OkV (view p) (.set key val)) (pl : Plan) :
+    view (runOp p (.set key val) pl).1 =
+      if (runOp p (.set key val) pl).2 then specApply (view p) (.set key val) else view p := by
+  rcases runOp_set p key val pl with ⟨h, h2⟩ | ⟨h, h2⟩
   · rw [h, h2]; rfl
   · rw [h, h2, view_stable]; rfl
 
 theorem call_disklog_set (p : Proc) (_hi : FInv p) (key val : Nat) (_hok : OkV (view p) (.set key val))
-    (k : Option Nat) (wf : WriteFail) :
-    absLog (runOp p (.set key val) k wf).1.disk = view (runOp p (.set key val) k wf).1 ∨
-    ((runOp p (.set key val) k wf).2 = false ∧
-      absLog (runOp p (.set key val) k wf).1.disk = specApply (view p) (.set key val)) ∨
-    absLog (runOp p (.set key val) k wf).1.disk =
-      (if (runOp p (.set key val) k wf).2 then specApply (absLog p.disk) (.set key val) else absLog p.disk) := by
+    (pl : Plan) :
+    absLog (runOp p (.set key val) pl).1.disk = view (runOp p (.set key val) pl).1 ∨
+    ((runOp p (.set key val) pl).2 = false ∧
+      absLog (runOp p (.set key val) pl).1.disk = specApply (view p) (.set key val)) ∨
+    absLog (runOp p (.set key val) pl).1.disk =
+      (if (runOp p (.set key val) pl).2 then specApply (absLog p.disk) (.set key val) else absLog p.disk) := by
   refine Or.inr (Or.inr ?_)
-  rcases runOp_set p key val k wf with ⟨h, h2⟩ | ⟨h, h2⟩
+  rcases runOp_set p key val pl with ⟨h, h2⟩ | ⟨h, h2⟩
   · rw [h, h2]; rfl
   · rw [h, h2]
     exact absLog_congr rfl rfl
@@ -143,13 +141,13 @@ theorem fextraB_stable (p : Proc) (st : List (Nat × Nat)) :
   | some segs0 => exact fextraStopB_congr rfl rfl rfl
 
 theorem fextra_call_set (p : Proc) (hi : FInvS p) (key val : Nat) (_hok : OkV (view p) (.set key val))
-    (k : Option Nat) (wf : WriteFail) : fextraB (runOp p (.set key val) k wf).1 = true := by
-  rcases runOp_set p key val k wf with ⟨h, _⟩ | ⟨h, _⟩
+    (pl : Plan) : fextraB (runOp p (.set key val) pl).1 = true := by
+  rcases runOp_set p key val pl with ⟨h, _⟩ | ⟨h, _⟩
   · rw [h]; exact hi.2
   · rw [h, fextraB_stable]; exact hi.2
 
 theorem finvS_call_set (p : Proc) (hi : FInvS p) (key val : Nat) (hok : OkV (view p) (.set key val))
-    (k : Option Nat) (wf : WriteFail) : FInvS (runOp p (.set key val) k wf).1 :=
-  ⟨finv_call_set p hi.1 key val hok k wf, fextra_call_set p hi key val hok k wf⟩
+    (pl : Plan) : FInvS (runOp p (.set key val) pl).1 :=
+  ⟨finv_call_set p hi.1 key val hok pl, fextra_call_set p hi key val hok pl⟩
 
 end RaftWal.Fault.B
